@@ -1081,7 +1081,25 @@ def _stub_fmax(ex, st, args, ins):
     x, y = args; return z3.If(x >= y, x, y) if ex.fpmode == 'real' else z3.fpMax(x, y)
 
 
+def _stub_libc_mem(what):
+    def stub(ex, st, args, ins):
+        fr = st.stack[-1]
+        symb = not z3.is_bv_value(z3.simplify(args[2])) or any(isinstance(p, Ptr) and not isinstance(p.off, int) for p in args[:2])
+        a1 = args[1]
+        if what == 'memset' and z3.is_expr(a1) and a1.size() != 8: a1 = z3.Extract(7, 0, a1)
+        if symb and not any(isinstance(p, IntPtr) for p in args[:2]):
+            outs = ex.mem_fork(st, what, args[0], a1, args[2])
+            for o in outs:
+                if isinstance(o, State) and ins.dst is not None: o.stack[-1].regs[ins.dst] = args[0]
+            return outs
+        ok = ex.memcpy(st, args[0], a1, args[2]) if what == 'memcpy' else ex.memset(st, args[0], a1, args[2])
+        if not ok: return [Result('memfault', st, info=ins.line)]
+        return args[0]
+    return stub
+
+
 DEFAULT_STUBS = {
+    'memset': _stub_libc_mem('memset'), 'memcpy': _stub_libc_mem('memcpy'), 'memmove': _stub_libc_mem('memcpy'),
     'mju_message': _stub_message, 'mju_error': _stub_error, 'mju_error_v': _stub_error,
     'mju_warning': _stub_warning, 'snprintf': _stub_zero32, 'printf': _stub_zero32,
     'sqrt': _stub_sqrt, 'sqrtf': _stub_sqrt, 'fabs': _stub_fabs, 'fabsf': _stub_fabs,
